@@ -24,19 +24,19 @@ SelStep(op, s, r1, r2) ==
                         idx |-> idx', cc |-> cc', win |-> {}, obs |-> Obs'])
 
 BGenNext ==
-  \/ GenNext /\ last' = NoPick /\ UNCHANGED <<idx, sel, cc, conns, rrhist, nsel>>
+  \/ GenNext /\ last' = NoPick /\ UNCHANGED <<idx, sel, cc, conns, rrhist, nsel, rng, crashed>>
   \/ /\ ~finished /\ UNCHANGED finished
      /\ \/ \E s \in Selectors : Load(s) /\ SelStep("Load", s, 0, 0)
         \/ \E s \in Selectors : PickRR(s) /\ SelStep("Pick", s, 0, 0)
         \/ \E s \in Selectors :
              /\ Policy = "random" /\ sel[s].pc = "loaded"
-             /\ UNCHANGED <<vars, idx, rrhist, nsel>>
+             /\ UNCHANGED <<vars, idx, rrhist, nsel, rng, crashed>>
              /\ \E r \in 0..(Len(sel[s].snap) - 1) :
                   /\ Established(s, sel[s].snap[r + 1], Rec(s, sel[s].snap[r + 1], r, NoObj, NoObj, 0, 0))
                   /\ SelStep("Pick", s, r, 0)
         \/ \E s \in Selectors :
              /\ Policy = "lc" /\ sel[s].pc = "loaded"
-             /\ UNCHANGED <<vars, idx, rrhist, nsel>>
+             /\ UNCHANGED <<vars, idx, rrhist, nsel, rng, crashed>>
              /\ \E r1 \in 0..(Len(sel[s].snap) - 1), r2 \in 0..(Len(sel[s].snap) - 1) :
                   LET h1 == sel[s].snap[r1 + 1]
                       h2 == sel[s].snap[r2 + 1]
